@@ -83,17 +83,40 @@ def run(ctx):
     ctx.check("C19-R3", "BytesArray parser: trim '[' ']' split ','", any(re.match(r"^<impl str>::trim_start_matches\(.*,91\)$", e) for e in evb) and any(re.match(r"^<impl str>::trim_end_matches\(.*,93\)$", e) for e in evb) and any(re.match(r"^<impl str>::split\(.*,44\)$", e) for e in evb),
               "BytesArray parsing is not trim('[').trim(']').split(','): %s" % [e[:60] for e in evb[:4]], where(g))
     ctx.check("C19-R3", "DottedHex parser: split ':'", any(re.match(r"^<impl str>::split\(.*,58\)$", e) for e in evd), "DottedHex parsing does not split on ':'", where(g))
-    c0 = A.fn(T + "Sha256Digest::from_str_fmt::{closure#0}")
-    s2 = [path_sig(p)[1] for p in nonpanic(walk(c0))]
-    t0 = {tuple(e[5].get("targs", [])) for p in walk(c0) for e in p.events if e[0] == "call" and e[1].endswith("str>::parse")}
-    ctx.check("C19-R3", "BytesArray element: decimal u8", len(s2) == 1 and s2[0].startswith("return Result::map_err(<impl str>::parse(&*<impl str>::trim(&*byte))") and t0 == {("u8",)}, "BytesArray elements are not parsed as trimmed decimal u8: %s %s" % (s2, t0), where(c0))
-    c1 = A.fn(T + "Sha256Digest::from_str_fmt::{closure#1}")
-    s2 = [path_sig(p)[1] for p in nonpanic(walk(c1))]
-    ctx.check("C19-R3", "DottedHex element: radix 16 u8", len(s2) == 1 and s2[0].startswith("return Result::map_err(<impl u8>::from_str_radix(&*<impl str>::trim(&*hex),16)"), "DottedHex elements are not parsed with u8::from_str_radix(_, 16): %s" % s2, where(c1))
+    # the parser family: from_str_fmt with its closures and nested helper functions (whatever they are called)
+    FN = [x for x in A.fn_list if x.body and x.path.startswith(T + "Sha256Digest::from_str_fmt")]
+    calls = []
+    for x in FN:
+        for p in walk(x):
+            for e in p.events:
+                if e[0] == "call":
+                    calls.append((x, e))
+    names = {e[1] for _, e in calls}
+    TRUNC = re.compile(r"Iterator::(zip|take|take_while|skip|skip_while|step_by|filter|filter_map|map_while|nth|last|scan|find|find_map|position|min|max|reduce)$"
+                       r"|<impl str>::(splitn|rsplitn|split_once|rsplit_once|split_terminator|split_whitespace|split_ascii_whitespace|get|get_unchecked|split_at|char_indices)$"
+                       r"|<impl \[T\]>::(first|last|get|split_at|chunks|chunks_exact|windows|iter)$|Vec::<.*>::truncate$|Vec::truncate$")
+    bad = sorted(n for n in names if TRUNC.search(n))
+    ctx.check("C19-R3", "every token reaches the element parser (no truncating / skipping adaptor)", not bad,
+              "Sha256Digest::from_str_fmt (or a helper of it) uses %s: components of the text can be dropped without being parsed or counted, "
+              "so malformed text with a valid prefix is accepted" % bad, where(g), key="digest parser: no truncating adaptor")
+    dec = [(x, e) for x, e in calls if e[1].endswith("<impl str>::parse")]
+    t0 = {tuple(e[5].get("targs", [])) for _, e in dec}
+    ctx.check("C19-R3", "BytesArray element: decimal u8", bool(dec) and t0 == {("u8",)} and all(re.match(r"^<impl str>::parse\(&\*<impl str>::trim\(", canon(("call", e[1], e[2], 0))) for _, e in dec)
+              or any(canon(e[2][1]) == "10" for _, e in calls if e[1].endswith("::from_str_radix")),
+              "BytesArray elements are not parsed as trimmed decimal u8: %s" % t0, where(g))
+    rad = sorted({canon(e[2][1]) for _, e in calls if e[1].endswith("::from_str_radix")})
+    ctx.check("C19-R3", "DottedHex element: radix 16 u8", "16" in rad and set(rad) <= {"16", "10"} and all(e[1].endswith("<impl u8>::from_str_radix") for _, e in calls if e[1].endswith("::from_str_radix")),
+              "DottedHex elements are not parsed with u8::from_str_radix(_, 16): radices %s" % rad, where(g))
     with depth_limit(10):
-        okl = [path_sig(p)[1] for p in ps if path_sig(p)[1].startswith("return Result::Ok(")]
+        okp = [p for p in ps if path_sig(p)[1].startswith("return Result::Ok(")]
     tt = {tuple(e[5].get("targs", [])) for p in ps for e in p.events if e[0] == "call" and e[1].endswith("TryInto<U>>::try_into")}
-    ctx.check("C19-R3", "length check via try_into::<[u8; 32]>", bool(okl) and tt == {("std::vec::Vec<u8>", "[u8; 32]")}, "the parsed bytes are not converted with Vec<u8> -> [u8; 32] (exact length 32): %s" % tt, where(g))
+    exact = bool(okp) and bool(tt) and all(len(t) == 2 and t[1] == "[u8; 32]" and re.match(r"^(std::vec::Vec<u8>|&\[u8\]|std::boxed::Box<\[u8\]>)$", t[0]) for t in tt) and \
+        all(any(re.search(r"TryInto<U>>::try_into\(.*\) ok$", a) for a in path_sig(p)[0]) for p in okp)
+    ctx.check("C19-R3", "exactly 32 components: Ok only after a successful Vec<u8> -> [u8; 32] conversion", exact,
+              "the accepting paths of from_str_fmt are not all guarded by a successful conversion of the whole parsed sequence into [u8; 32] "
+              "(conversions seen: %s): a wrong number of components is not refused on every path" % sorted(tt), where(g), key="digest parser: exact length")
+    ctx.count("digest_parser_family_fns", len(FN))
+    ctx.floor("C19-R3", "digest parser family", len(FN), 1)
     g = A.fn(T + "Sha256Digest::fmt")
     with depth_limit(10):
         sg2 = {tuple(path_sig(p)[0]): path_sig(p)[1] for p in nonpanic(walk(g))}
